@@ -1670,6 +1670,63 @@ Proof.
     apply in_map_iff in Hn as (e & <- & He); apply in_map; now apply H2.
 Qed.
 
+
+(* every state of the persistence layer's histories (complete and cancelled GCs, SaveIndex,
+   AutoSaveIndex on or off, reloads from whatever index.json holds) satisfies the hypotheses of
+   the Delete / GC theorems *)
+Lemma reload_wf m d : wf (reload succ manifest cfg_fixed m d).
+Proof.
+  intros y Hy. unfold reload in *. cbn [gnodes blobs] in *. apply (proj1 (dedup_In _ _)) in Hy.
+  apply in_flat_map in Hy as (n & _ & Hy).
+  change (clo succ manifest cfg_fixed) with (closure succ) in Hy.
+  apply closure_spec in Hy. eapply Reach_in; eauto.
+Qed.
+
+Lemma reload_no_stale m d : no_stale (reload succ manifest cfg_fixed m d).
+Proof.
+  intros t n H. unfold reload in H. cbn [idx] in H. apply load_form_In in H as (e0 & _ & H).
+  destruct e0 as [[t0|d0|t0] k]; cbn [fst snd] in H; [destruct H as [H|H]| |]; try discriminate; destruct H.
+Qed.
+
+Lemma pstep_inv kl p o :
+  wf (mem p) /\ no_stale (mem p) ->
+  wf (mem (fst (pstep succ subject manifest cfg_fixed kl p o))) /\
+  no_stale (mem (fst (pstep succ subject manifest cfg_fixed kl p o))).
+Proof.
+  intros [Hw Hn]. destruct o as [o| |b|early order k|bad].
+  - pose proof (step_wf kl (mem p) o Hw) as Hw'. pose proof (step_no_stale kl (mem p) o Hn) as Hn'.
+    destruct o as [n|n t|t|n| |b|s| |]; cbn [pstep step] in *.
+    + destruct (push manifest (mem p) n) as [m r]. cbn [fst mem saved] in *. tauto.
+    + destruct (tag manifest cfg_fixed (mem p) n t) as [m r]. cbn [fst mem saved] in *. tauto.
+    + destruct (untag (mem p) t) as [m r]. cbn [fst mem saved] in *. tauto.
+    + destruct (delete succ subject manifest cfg_fixed ord_id (mem p) n) as [m r]. cbn [fst mem saved] in *. tauto.
+    + destruct (gc succ subject manifest cfg_fixed kl _ (mem p)) as [m r]. cbn [fst mem saved] in *. tauto.
+    + cbn [fst mem saved] in *. tauto.
+    + cbn [fst mem saved] in *. tauto.
+    + cbn [fst mem]. split; [apply reload_wf|apply reload_no_stale].
+    + cbn [fst mem]. split; [apply reload_wf|apply reload_no_stale].
+  - cbn [pstep fst mem saved]. tauto.
+  - cbn [pstep fst mem]. tauto.
+  - destruct early; cbn [pstep]; [tauto|].
+    destruct (gc_cancel_spec kl (fun _ => candidates (idx (mem p))) order k (mem p) ltac:(tauto))
+      as (sc & Ec & Ei & Eg & Hg & Hb & _).
+    rewrite Ec. cbn [fst mem saved]. split.
+    + intros y Hy. apply Hg in Hy. apply Hb. split; [eapply Live_in; eauto|now left].
+    + intros t n H. rewrite Ei in H. exact (gc_no_stale kl _ (mem p) Hn t n H).
+  - cbn [pstep fst]. tauto.
+Qed.
+
+Lemma prun_inv kl ops :
+  let p := fold_left (fun p o => fst (pstep succ subject manifest cfg_fixed kl p o)) ops pinit in
+  wf (mem p) /\ no_stale (mem p).
+Proof.
+  assert (H : forall p, wf (mem p) /\ no_stale (mem p) ->
+     let q := fold_left (fun p o => fst (pstep succ subject manifest cfg_fixed kl p o)) ops p in
+     wf (mem q) /\ no_stale (mem q)).
+  { induction ops as [|o ops IH]; intros p Hp; [exact Hp|]. simpl. apply IH. now apply pstep_inv. }
+  apply H. split; [intros y []|intros t n []].
+Qed.
+
 End Proofs.
 
 (* ================================================================== *)
@@ -2220,3 +2277,14 @@ Lemma media_type_tables_final :
   map kind_has_subject [0; 1; 2; 3; 4; 5] = [false; true; false; true; false; true] /\
   map is_manifest_kind [0; 1; 2; 3; 4; 5] = [false; true; true; true; true; true].
 Proof. vm_compute. repeat split. Qed.
+
+Lemma phistories_final : forall succ subject manifest,
+  acyclic succ -> subject_listed succ subject ->
+  forall kl ops,
+  let p := fold_left (fun p o => fst (pstep succ subject manifest cfg_fixed kl p o)) ops pinit in
+  wf (mem p) /\ (forall n, is_tagged (mem p) n = true <-> exists t, In (RTag t, n) (idx (mem p))).
+Proof.
+  intros succ subject manifest H1 H2 kl ops p.
+  destruct (prun_inv succ subject manifest H1 H2 kl ops) as [Hw Hn]. fold p in Hw, Hn.
+  split; [exact Hw|]. intro n. now apply no_stale_tagged.
+Qed.
